@@ -555,6 +555,88 @@ func vfC07Schedule(res *vfResult, idx int) {
 	p.Close()
 }
 
+// vfC07ResumeUnfinished: the State a VerifyConnection callback is handed (or ConnectionState() polled during the
+// handshake) describes a connection that has no protected epoch yet. If it can be serialised and resumed, a Write on
+// the result must not put the payload on the wire in an unprotected (epoch 0) application record.
+func vfC07ResumeUnfinished(t *testing.T, res *vfResult, side string, sn string) {
+	res.Eval(1)
+	cfg := vfBaseCfg(vfSuiteByName(sn), "ecdsa")
+	co, so := cfg.Options(nil, nil)
+	var mu sync.Mutex
+	var snaps [][]byte
+	grab := WithVerifyConnection(func(st *State) error {
+		if raw, err := st.MarshalBinary(); err == nil {
+			mu.Lock()
+			snaps = append(snaps, raw)
+			mu.Unlock()
+		}
+
+		return nil
+	})
+	if side == "c" {
+		co = append(co, grab)
+	} else {
+		so = append(so, grab)
+	}
+	n := vfNewNet()
+	p, err := vfNewPair(n, co, so)
+	if err != nil {
+		res.Count("config_rejected", 1)
+
+		return
+	}
+	ce, se := p.Handshake(time.Minute)
+	p.Close()
+	synctest.Wait()
+	mu.Lock()
+	raws := snaps
+	mu.Unlock()
+	id := fmt.Sprintf("resume-unfinished/%s/%s", sn, side)
+	res.NonTrivial(id)
+	if ce != nil || se != nil || len(raws) == 0 {
+		res.Count("resume_unfinished_no_snapshot", 1)
+
+		return
+	}
+	for _, raw := range raws {
+		var st State
+		if st.UnmarshalBinary(raw) != nil {
+			res.Count("resume_unfinished_refused", 1)
+
+			continue
+		}
+		n2 := vfNewNet()
+		ep := n2.Endpoint("x", vfClientAddr)
+		n2.Endpoint("y", vfServerAddr)
+		rc, err := ResumeWithOptions(&st, ep, vfAddr(vfServerAddr))
+		if err != nil {
+			res.Count("resume_unfinished_refused", 1)
+
+			continue
+		}
+		res.Count("resume_unfinished_accepted", 1)
+		marker := []byte("written-on-a-connection-resumed-from-an-unfinished-handshake")
+		_ = rc.SetWriteDeadline(time.Now().Add(5 * time.Second))
+		_, werr := rc.Write(marker)
+		synctest.Wait()
+		for _, w := range n2.Emissions("x") {
+			recs, _ := vfParseDatagram(w.Data, 0)
+			for _, rcd := range recs {
+				if !rcd.Unified && (rcd.Type == 23 || rcd.Type == 25) && rcd.Epoch == 0 {
+					res.Violate("C07:application-record-epoch0:resumed-from-unfinished-handshake",
+						fmt.Sprintf("%s: a State taken during the handshake (VerifyConnection callback) was serialised and resumed; Write (err=%v) emitted an application record with epoch 0", id, werr), nil)
+				}
+			}
+			if bytes.Contains(w.Data, marker) {
+				res.Violate("C07:secret-in-clear:resumed-from-unfinished-handshake:application-data",
+					fmt.Sprintf("%s: the payload written on the connection resumed from an unfinished handshake left in clear", id), nil)
+			}
+		}
+		_ = rc.Close()
+		synctest.Wait()
+	}
+}
+
 func TestVF_C07(t *testing.T) {
 	vfGetPKI()
 	res := vfNewResult("C07", "passive wire scan of generated sessions (configuration generator per suite, perfect and faulted delivery, 1-4 writer "+
@@ -588,6 +670,8 @@ func TestVF_C07(t *testing.T) {
 	}
 	per := vfPick(40, 1500)
 	vfBubbles(t, per*len(suites), func(t *testing.T, i int) { vfC07Session(t, res, i, suites[i%len(suites)]) })
+	ru := []string{"ECDSA-GCM128", "ECDSA-CBC", "ECDSA-CHACHA"}
+	vfBubbles(t, 2*len(ru), func(t *testing.T, i int) { vfC07ResumeUnfinished(t, res, []string{"c", "s"}[i%2], ru[i/2]) })
 	ns := vfPick(300, 8000)
 	vfParallel(ns, func(_, i int) { vfC07Schedule(res, i) })
 	for _, s := range suites {
